@@ -27,8 +27,10 @@ Three streams, all on the REAL navis imported in-process:
 (C) **translator cross-check** (`c03.trace`): the Python-side `ok_trace` of the translator agrees with the Lean `okTrace`
     on every extracted trace, and the Lean trace semantics reproduces frame / violation.
 
-Known findings reproduced (signatures in known_findings/C03.json): `nl | n` appends to the receiver's list;
-`copy()` shares the tag *lists* between input and result."""
+Defects found by this check and since fixed in navis (known_findings/C03.json, status "fixed"; every one of them is an
+ordinary VIOLATION again if it returns): `nl | n` appended to the receiver's list; `copy()` shared the tag *lists* between
+input and result; `Dotprops.to_skeleton` shared its connector table with the result; `find_main_branchpoint` left a
+`betweenness` column in its input."""
 import inspect, importlib, itertools, os, random as _random, tempfile, warnings, copy as _copy, math
 from pathlib import Path
 
@@ -48,11 +50,6 @@ navis.set_loggers('ERROR')
 SUBPACKAGES = ['connectivity', 'conversion', 'core', 'data', 'graph', 'intersection', 'io', 'meshes', 'morpho', 'nbl',
                'plotting', 'sampling', 'transforms', 'utils']
 CLASSES = ['TreeNeuron', 'MeshNeuron', 'Dotprops', 'VoxelNeuron', 'NeuronList']
-
-SIG_OR = 'NeuronList.__or__(neuron) / receiver list mutated / other not a member'
-SIG_TAGS = 'copy() shallow-copies tags / tag lists shared between input and result / result.tags[k].append'
-SIG_FMB = "find_main_branchpoint(method='betweenness') / undocumented 'betweenness' column left in the input node table / reroot_soma=False"
-SIG_TOSKEL = 'Dotprops.to_skeleton / connector table object shared with the result / dotprops has connectors'
 
 
 # =================================================================================================
@@ -709,8 +706,7 @@ def sweep_case(ctx, case):
     if err is not None and spec.get('expect_fail'):
         return                      # skipped-with-reason: raises for every input in this environment
     ctx.oracle(not d, f'{tag}: input modified by a call without inplace=True (differs in {d[:6]})'
-                      + (f' [call raised {short(err)}]' if err is not None else ''), case,
-               signature=(SIG_FMB if (name == 'find_main_branchpoint' and d == ['nodes.betweenness']) else None))
+                      + (f' [call raised {short(err)}]' if err is not None else ''), case)
     if members0 is not None:
         ctx.oracle(members0 == [id(n) for n in x.neurons], f'{tag}: the input NeuronList holds different neuron objects after the call', case)
     if annot:
@@ -730,17 +726,14 @@ def sweep_case(ctx, case):
             ctx.count('mutated_' + k, v if k.endswith('errors') else 'n')
         s2 = snap(x)
         d2 = snap_diff(s1, s2)
-        ctx.oracle(not d2, f'{tag}: editing the tables/arrays of the RESULT changed the input (shared {d2[:6]})', case,
-                   signature=(SIG_TOSKEL if (name == 'Dotprops.to_skeleton' and all(k.startswith('connectors') for k in d2)) else None))
+        ctx.oracle(not d2, f'{tag}: editing the tables/arrays of the RESULT changed the input (shared {d2[:6]})', case)
         # tag lists (separate failure kind)
         mutate_result(res, st, tags=True, neurons=sel)
         s3 = snap(x)
         d3 = [k for k in snap_diff(s2, s3) if k.endswith('tags')]
         d3o = [k for k in snap_diff(s2, s3) if not k.endswith('tags')]
-        if name == 'Dotprops.to_skeleton':
-            d3o = [k for k in d3o if not k.startswith('connectors')]        # already reported above
         ctx.oracle(not d3, f'{tag}: appending to a tag list of the RESULT changed the input\'s tags (copy() shares the lists)',
-                   case, signature=SIG_TAGS)
+                   case)
         ctx.oracle(not d3o, f'{tag}: editing the result changed the input ({d3o[:6]})', case)
     # ---- 4. inplace
     if ip and not spec.get('nondet'):
@@ -813,7 +806,7 @@ def arith_case(ctx, case):
     mutate_result(r, st, tags=True)
     d3 = [q for q in snap_diff(s0, snap(x))]
     ctx.oracle(not [q for q in d3 if q.endswith('tags')], f'{tag}: appending to a tag list of the result changed the input\'s tags',
-               case, signature=SIG_TAGS)
+               case)
     ctx.oracle(not [q for q in d3 if not q.endswith('tags')], f'{tag}: editing the result changed the input', case)
     if kind.startswith('nl_'):
         return          # NeuronList defines no __imul__: `nl *= k` is `nl = nl * k` by Python's rules
@@ -855,9 +848,8 @@ def listop_case(ctx, case):
     mod = ' '.join(w for w in mline.split() if not w.startswith('ext='))
     ctx.corr(impl, mod, f'{tag}: (new list?, receiver length, result length) vs heap model', case)
     # oracle: the receiver is unchanged
-    sig = SIG_OR if (op == 'or' and not present) else None
     ctx.oracle([id(n) for n in nl.neurons] == ids0,
-               f'{tag}: the receiver list was modified (len {len(ids0)} -> {recv_len})', case, signature=sig)
+               f'{tag}: the receiver list was modified (len {len(ids0)} -> {recv_len})', case)
     if [id(n) for n in nl.neurons] == ids0:
         ctx.oracle(not snap_diff(s0, snap(nl)), f'{tag}: member neurons of the receiver were modified', case)
     ctx.oracle(r is not nl, f'{tag}: operator returned the receiver itself', case)
